@@ -64,7 +64,10 @@ def tag(t):
 
 def untag(tagged):
     for b in tagged:
-        b._p_oid = None
+        try:
+            del b._p_oid        # back to 'never stored' (assigning None is not the same for the C base class)
+        except Exception:       # noqa
+            b._p_oid = None
 
 
 def raw(t, is_set, leaf_types):
@@ -553,3 +556,44 @@ def stale_variant(tpl):
     t2 = conv(tpl)
     ks = sorted(set(all_keys(t2)))
     return rerank(t2, {k: i for i, k in enumerate(ks)})
+
+
+def tag_all(t):
+    """Fake oids on every node below the root (leaves and interior nodes), as in
+    a database in which every node has been stored: __getstate__ then never
+    embeds a leaf state inline.  -> objects to untag."""
+    out = tag(t)
+    n = [0]
+
+    def rec(node):
+        st = node.__getstate__()
+        if st is None or len(st) == 1:
+            return
+        for x in st[0][::2]:
+            if hasattr(x, '_firstbucket') and type(x) is type(node):
+                if x._p_oid is None and x._p_jar is None:
+                    x._p_oid = _FAKE + b'T' + n[0].to_bytes(2, 'big')
+                    n[0] += 1
+                    out.append(x)
+                rec(x)
+    try:
+        if hasattr(t, '_firstbucket'):
+            rec(t)
+    except Exception:
+        untag(out)
+        raise
+    return out
+
+
+def embedded_nonroot(tpl):
+    """template has a NON-root interior node whose only child is a leaf: with no
+    oids anywhere such a node serialises its leaf inline although the leaf is
+    also referenced by its predecessor's next pointer."""
+    def rec(n, root):
+        if n[0] != 'T':
+            return False
+        kids = n[1][::2]
+        if not root and len(kids) == 1 and kids[0][0] == 'B':
+            return True
+        return any(rec(k, False) for k in kids)
+    return rec(tpl, True)
